@@ -163,6 +163,11 @@ def run(ctx):
         if (caller, callee) not in fresh:
             ctx.violation(RF, "hydro_lang|%s|%s|stale-review" % (caller, callee), "reviewed fresh-guard entry matches no call site any more (re-review rules/p_C32.py)")
 
+    if ctx.tier == "thorough":
+        # independent cross-check of the solver by the real type checker: compile-fail witnesses with compiling twins
+        import witness
+        witness.check(ctx, "C32")
+
 
 def _guardless_helper_calls(c):
     """calls of helpers that take no NonDet (cast_at_most_one_*)"""
